@@ -37,6 +37,9 @@ type plan struct {
 	rbuf     int
 	half     bool
 	second   bool // a second connection with the mirrored plan runs at the same time
+	// lateRead: both ends start reading only after this long, while both keep writing: every buffer on the
+	// way fills up in both directions at once
+	lateRead time.Duration
 }
 
 type httpCase struct {
@@ -57,7 +60,7 @@ func (c bcase) String() string {
 	if c.h != nil {
 		return fmt.Sprintf("pass-through %s %s hdr=%v body=%d", c.h.method, c.h.target, c.h.hdr, c.h.body)
 	}
-	return fmt.Sprintf("plan up%v down%v rbuf=%d half=%v second=%v", c.p.up, c.p.down, c.p.rbuf, c.p.half, c.p.second)
+	return fmt.Sprintf("plan up%v down%v rbuf=%d half=%v second=%v lateRead=%v", c.p.up, c.p.down, c.p.rbuf, c.p.half, c.p.second, c.p.lateRead)
 }
 
 func build(tier string) {
@@ -89,6 +92,8 @@ func build(tier string) {
 	if th {
 		cases = append(cases, bcase{p: &plan{up: []int{8 << 20}, down: []int{8 << 20}, rbuf: 65536}})
 	}
+	// full-duplex bulk transfer with both readers starting late
+	cases = append(cases, bcase{p: &plan{up: []int{24 << 20}, down: []int{24 << 20}, rbuf: 65536, lateRead: 1500 * time.Millisecond}})
 	// websocket handshakes that are not the bridge's own: the backend application's websocket endpoints
 	for _, t := range []string{"/ws", "/", connection.StreamingPath + "/sub", "/a/" + strings.TrimPrefix(connection.StreamingPath, "/")} {
 		cases = append(cases, bcase{h: &httpCase{method: "GET", target: t, hdr: [][2]string{{"X-A", "1"}, {"Sec-WebSocket-Protocol", "chat"}}, upgrade: true}})
@@ -266,8 +271,13 @@ func (r *rig) serve() {
 			go func() {
 				defer close(readDone)
 				buf := make([]byte, p.rbuf)
+				wait := 20 * time.Second
+				if p.lateRead > 0 {
+					time.Sleep(p.lateRead)
+					wait = 60 * time.Second
+				}
 				for len(got) < want {
-					c.SetReadDeadline(time.Now().Add(20 * time.Second))
+					c.SetReadDeadline(time.Now().Add(wait))
 					n, err := br.Read(buf)
 					got = append(got, buf[:n]...)
 					if err != nil {
@@ -277,6 +287,9 @@ func (r *rig) serve() {
 			}()
 			if p.half {
 				<-readDone
+			}
+			if p.lateRead > 0 {
+				c.SetWriteDeadline(time.Now().Add(90 * time.Second))
 			}
 			for k, sz := range p.down {
 				c.Write(pattern(id, 1, sz+k)[:sz])
@@ -331,8 +344,13 @@ func runPlan(r *rig, id int, p *plan) (down []byte, sentUp []byte, timedOut bool
 	go func() {
 		defer close(done)
 		buf := make([]byte, p.rbuf)
+		wait := 20 * time.Second
+		if p.lateRead > 0 {
+			time.Sleep(p.lateRead)
+			wait = 60 * time.Second
+		}
 		for len(down) < wantDown {
-			c.SetReadDeadline(time.Now().Add(20 * time.Second))
+			c.SetReadDeadline(time.Now().Add(wait))
 			n, err := c.Read(buf)
 			down = append(down, buf[:n]...)
 			if err != nil {
@@ -344,6 +362,9 @@ func runPlan(r *rig, id int, p *plan) (down []byte, sentUp []byte, timedOut bool
 		}
 	}()
 	c.Write([]byte{0xB1, byte(id), byte(id >> 8), 0})
+	if p.lateRead > 0 {
+		c.SetWriteDeadline(time.Now().Add(90 * time.Second))
+	}
 	for k, sz := range p.up {
 		d := pattern(id, 0, sz+k)[:sz]
 		sentUp = append(sentUp, d...)
@@ -360,7 +381,8 @@ func runPlan(r *rig, id int, p *plan) (down []byte, sentUp []byte, timedOut bool
 }
 
 func (r *rig) waitUp(id, want int) []byte {
-	for i := 0; i < 400; i++ {
+	// longer than the server's own read deadline: a stalled upstream is then reported with what did arrive
+	for i := 0; i < 9500; i++ {
 		r.mu.Lock()
 		g, ok := r.upGot[id]
 		r.mu.Unlock()
@@ -431,6 +453,11 @@ func eval(tier string, i int) vx.Exec {
 		}
 		up := r.waitUp(o.id, len(o.sentUp))
 		obs = append(obs, fmt.Sprintf("conn%d up %d/%d down %d/%d", k, len(up), len(o.sentUp), len(o.down), len(wantDown)))
+		if o.timedOut && o.p.lateRead > 0 {
+			x.Violations = append(x.Violations, fmt.Sprintf("WEDGED: full-duplex transfer of %s: with both readers starting %v late, nothing arrived at the client for 60 s after %d of %d bytes, although both ends were reading by then", c, o.p.lateRead, len(o.down), len(wantDown)))
+			r.served = 1 << 20
+			return x
+		}
 		if o.timedOut && len(o.down) <= len(wantDown) && bytes.Equal(o.down, wantDown[:len(o.down)]) {
 			// a correct prefix and then 20 s of silence on a loaded machine: not judged here; stalls and
 			// deadlocks of the bridge are decided by harness bridge under the controlled scheduler
